@@ -64,6 +64,18 @@ def run(ck, F, E):
 
 
 # ---------------------------------------------------------------------------------- grammar
+
+    # ---- the value of an expression does not depend on what was evaluated before: the only state the evaluator keeps
+    # between expressions is the depth counter, and that is returned to its starting value on every path (errors included)
+    import panics
+    counters = panics.counter_guard_fns(F)
+    balanced = panics.balanced_counter_fields(F)
+    for g, (field, limit, leaves) in sorted(counters.items()):
+        ck.require(field in balanced, "C02:DEPTH:%s:balanced" % field, "history independence",
+                   balanced.get(field, ""), "the depth counter Program.%s (guard %s) is not given back on every path of its users: "
+                   "after enough failed evaluations a well-formed expression reports OUT OF MEMORY instead of its value" % (field, g))
+
+
 def grammar_rules(ck, F):
     top = get_fn(ck, F, EV + "evaluate_expression")
     if top is not None:
